@@ -121,7 +121,7 @@ def model(draw, flavour=None, max_blocks=10):
     m = {'title': draw(SF(['test model', 'A title with  two spaces', 'x' * 80, 'T'])), 'end': 'ENDCY'}
     present = set(['PARAM', 'ELEME', 'CONNE'])
     if au:
-        m['simulator'] = draw(SF(['AUTOUGH2.2', 'AUTOUGH2.2EW', 'AUTOUGH2.2EWAV', 'AUTOUGH2.2EWC']))
+        m['simulator'] = draw(SF(['AUTOUGH2.2', 'AUTOUGH2.2EW', 'AUTOUGH2.2EWAV', 'AUTOUGH2.2EWC', 'AUTOUGH2.2EW', 'MULKOM    EW', 'autough2.2ew', 'SIM']))     # (any text in the SIMUL record makes the file an AUTOUGH2 one)
         present.add('SIMUL')
     # rocks
     nr = draw(I(0, 4))
@@ -280,7 +280,7 @@ def model(draw, flavour=None, max_blocks=10):
             gname = '%3s%2d' % (draw(SF(['wel', 'inj', 'src'])), gi + 1)
             typ = draw(SF(['MASS', 'HEAT', 'MASS', 'WATE', 'COM1', 'DELV'] + (['CO2 ', 'DELG', 'RECH'] if au else ['AIR ', 'COM2'])))
             seqs = [None, None, None]
-            if draw(I(0, 3)) == 0: seqs = [draw(opt(I(1, 99), 2)) for _ in range(3)]       # NSEQ, NADD, NADS (rarely used, all optional)
+            if draw(I(0, 3)) == 0: seqs = [draw(opt(I(0, 99), 2)) for _ in range(3)]       # NSEQ, NADD, NADS (rarely used, all optional)
             g = {'block': blk, 'name': gname, 'nseq': seqs[0], 'nadd': seqs[1], 'nads': seqs[2], 'ltab': None, 'type': typ, 'itab': ' ',
                  'gx': draw(_memo('pm', lambda: st.one_of(pos(1e-6, 1e6), pos(1e-6, 1e6).map(lambda v: -v)))), 'ex': draw(opt(pos(1e3, 3e6), 2)),
                  'hg': draw(opt(pos(1e-3, 1e3), 3)), 'fg': draw(opt(pos(1e-3, 1e3), 3)), 'time': [], 'rate': [], 'enthalpy': []}
@@ -567,7 +567,7 @@ def cmp_record(R, sig, a, b, ctx):
             if x and isinstance(x[0], list) or y and isinstance(y[0], list):
                 ok = len(x or []) == len(y or []) and all(same_list(p, q) for p, q in zip(x or [], y or []))
             else: ok = same_list(x, y)
-        else: ok = same(x, y, k in ZERO_NONE, k in STRIP_KEYS)
+        else: ok = same(x, y, k in ZERO_NONE and not sig.endswith(':generators'), k in STRIP_KEYS)      # (a generator's 0 stays a 0; for blocks, connections and incons the reader documents 0 -> None)
         R.check(ok, '%s:%s' % (sig, k), '%s: %s = %r, expected %r' % (ctx, k, x, y))
 
 
